@@ -45,7 +45,7 @@ def shard(seed, n, tier):
 
 
 def main(tier, seed, cases=None):
-    return simprop.standard_main(PROP, LEVEL, __name__, RULE, ASSUMPTIONS, tier, seed, cases, quick=(4, 300), thorough=(16, 4000))
+    return simprop.standard_main(PROP, LEVEL, __name__, RULE, ASSUMPTIONS, tier, seed, cases, quick=(8, 300), thorough=(16, 4000))
 
 
 def replay(path):
